@@ -99,7 +99,7 @@ func newModel(s metricSpec) *model {
 }
 
 // apply runs o on both sides; returns a description of the first disagreement.
-func apply(real *metrics.Metric, mod *model, o op) string {
+func apply(st *metrics.Store, real *metrics.Metric, mod *model, o op) string {
 	wrongArity := len(o.Tuple) != mod.arity
 	switch o.Kind {
 	case "get", "set", "inc", "dec", "observe":
@@ -175,6 +175,30 @@ func apply(real *metrics.Metric, mod *model, o op) string {
 		if i := mod.find(o.Tuple); i >= 0 {
 			mod.entries = append(mod.entries[:i:i], mod.entries[i+1:]...)
 		}
+	case "gc":
+		// Store.Gc: drops every tuple whose expiry mark is older than its
+		// timestamp allows. Only the instants just before and after the call are
+		// known, so a tuple that becomes due in between may go either way.
+		before := time.Now()
+		if err := st.Gc(); err != nil {
+			return "Store.Gc failed: " + err.Error()
+		}
+		after := time.Now()
+		kept := mod.entries[:0:0]
+		for _, e := range mod.entries {
+			ts := time.Unix(0, e.ts)
+			switch {
+			case e.expiry <= 0 || after.Sub(ts) <= e.expiry:
+				kept = append(kept, e) // certainly not due
+			case before.Sub(ts) > e.expiry:
+				// certainly due: dropped
+			default:
+				if real.FindLabelValueOrNil(e.labels) != nil { // became due during the call
+					kept = append(kept, e)
+				}
+			}
+		}
+		mod.entries = kept
 	case "remove-oldest":
 		// the limit-enforcement path of GC: drops the live tuple with the
 		// earliest timestamp (the first such in enumeration order)
@@ -439,8 +463,11 @@ func randOp(rng *ev.RNG, s metricSpec) op {
 		}
 	case k < 8:
 		o.Kind = "remove"
-		if rng.Intn(3) == 0 {
+		switch rng.Intn(4) {
+		case 0:
 			o.Kind = "remove-oldest"
+		case 1:
+			o.Kind = "gc"
 		}
 	default:
 		o.Kind = "expire"
@@ -458,8 +485,10 @@ type witness struct {
 
 func runSeq(s metricSpec, ops []op) (int, string) {
 	real, mod := newReal(s), newModel(s)
+	st := metrics.NewStore() // the store's GC is one of the operations
+	_ = st.Add(real)
 	for i, o := range ops {
-		if w := apply(real, mod, o); w != "" {
+		if w := apply(st, real, mod, o); w != "" {
 			return i, w
 		}
 		if w := compare(real, mod, universe, i == len(ops)-1 || i%4 == 3); w != "" {
@@ -472,7 +501,7 @@ func runSeq(s metricSpec, ops []op) (int, string) {
 func TestC09(t *testing.T) {
 	r := ev.Start(t, "C09", "exploration")
 	defer r.Finish()
-	r.Rule("operation sequences (get-or-create, set/inc/dec/observe with explicit timestamps, remove, remove-oldest, expire, wrong-arity variants) applied to a real Metric and to an insertion-ordered reference list; after every op the LabelValues slice, the index (FindLabelValueOrNil for every universe tuple), EmitLabelSets and (every 4th op) JSON are compared. Non-trivial: the sequence contains a removal of a present tuple followed later by a creation, or an expiry mark on a present tuple; distinct by op-sequence text.")
+	r.Rule("operation sequences (get-or-create, set/inc/dec/observe with explicit timestamps, remove, remove-oldest, Store.Gc, expire, wrong-arity variants) applied to a real Metric and to an insertion-ordered reference list; after every op the LabelValues slice, the index (FindLabelValueOrNil for every universe tuple), EmitLabelSets and (every 4th op) JSON are compared. Non-trivial: the sequence contains a removal of a present tuple followed later by a creation, or an expiry mark on a present tuple; distinct by op-sequence text.")
 	r.Assume("creation timestamp of a fresh datum is learnt from the real side (not specified)", "JSON marshalling of non-finite floats is C22's subject and skipped here")
 
 	// exhaustive part: all sequences up to length L over a 2-tuple universe, per value type
@@ -497,7 +526,7 @@ func TestC09(t *testing.T) {
 		if s.arity == 1 {
 			wrong = []string{"x", "y"}
 		}
-		alphabet = append(alphabet, op{Kind: "get", Tuple: wrong}, op{Kind: "remove", Tuple: wrong}, op{Kind: "expire", Tuple: wrong, D: 1}, op{Kind: "remove-oldest", Tuple: ts[0]})
+		alphabet = append(alphabet, op{Kind: "get", Tuple: wrong}, op{Kind: "remove", Tuple: wrong}, op{Kind: "expire", Tuple: wrong, D: 1}, op{Kind: "remove-oldest", Tuple: ts[0]}, op{Kind: "gc", Tuple: ts[0]})
 		total := 1
 		for i := 0; i < L; i++ {
 			total *= len(alphabet)
@@ -516,7 +545,7 @@ func TestC09(t *testing.T) {
 		})
 		r.Count("exhaustive_sequences", total)
 	}
-	r.Set("exhaustive_part", fmt.Sprintf("all sequences of length %d (prefix-closed: every shorter sequence is a prefix) over {get,update,remove,expire}x2 tuples + 3 wrong-arity ops + remove-oldest, for Counter/Int, Histogram/Buckets, Gauge/Float", L))
+	r.Set("exhaustive_part", fmt.Sprintf("all sequences of length %d (prefix-closed: every shorter sequence is a prefix) over {get,update,remove,expire}x2 tuples + 3 wrong-arity ops + remove-oldest + Store.Gc, for Counter/Int, Histogram/Buckets, Gauge/Float", L))
 
 	n := ev.Pick(6000, 400000)
 	rng := ev.NewRNG(ev.Seed(), "c09")
@@ -545,6 +574,8 @@ func TestC09(t *testing.T) {
 			switch o.Kind {
 			case "remove-oldest":
 				r.Count("remove_oldest_ops", 1)
+			case "gc":
+				r.Count("gc_ops", 1)
 			case "remove":
 				if present[k] {
 					removed[k] = true
